@@ -2,7 +2,7 @@
 from .. import scriptprop
 
 ID = "C13"
-GEN = ['Chunk.lean']   # regenerated kernels this property's theorems are about (tie 4B)
+GEN = ["Chunk.lean", "SlicesShapes.lean"]   # regenerated from the source on every run (tie 4B): kernels / call shapes / function shapes
 RULE = ("sizes at the top of the int range (2^63-1, 2^63-2, 2^62, ...) for n in 0..5; " +
         "quick: every length n in 0..24 x every size in 1..26 (all remainders, size>n, size=n) for chunk/chunkfunc/windowed/windowedfunc, "
         "every n for pairs/pairsfunc, element values drawn from one PRNG; plus a malformed stream (size 0 and negative) judged against the model only; "
